@@ -22,9 +22,7 @@ import fractions
 import uuid
 
 EPOCH = datetime.datetime(1970, 1, 1)
-EPOCH_DATE = datetime.date(1970, 1, 1)
 UUID_OFFSET = 0x01B21DD213814000          # 100-ns intervals from 1582-10-15 to 1970-01-01 (cross-checked against the spec)
-DAY_NS = 86400 * 10 ** 9
 ONE_US = datetime.timedelta(microseconds=1)
 
 
